@@ -68,3 +68,18 @@ pub fn scratch_dir() -> String {
     std::fs::create_dir_all(&d).unwrap();
     d
 }
+
+/// `ShmWriter::new` never closes the descriptor it maps from (one leaked fd per call). Harmless for
+/// the daemon, fatal for a harness that creates thousands of writers: close every descriptor of this
+/// process that still refers to `path`.
+pub fn close_leaked(path: &str) {
+    if let Ok(rd) = std::fs::read_dir("/proc/self/fd") {
+        let fds: Vec<i32> = rd.filter_map(|e| e.ok()).filter_map(|e| {
+            let fd: i32 = e.file_name().to_str()?.parse().ok()?;
+            let target = std::fs::read_link(e.path()).ok()?;
+            let t = target.to_str()?.trim_end_matches(" (deleted)").to_string();
+            if t == path { Some(fd) } else { None }
+        }).collect();
+        for fd in fds { unsafe { libc::close(fd); } }
+    }
+}
